@@ -264,8 +264,10 @@ def _run_parse(idx, case):
                                ("real_scalar_or_real_numpy_array_check" if real else "integer_scalar_or_integer_numpy_array_check",
                                 True)):
                 fn = os.path.join(WORK, f"cfg-{os.getpid()}.txt")
+                # every other case asks for x to be unpacked (one variation per value read, in order)
+                unpack = idx % 2 == 0 and not (is_sc and case["scalar"] and syntax == "commas") and len(case["vals"]) > 0
                 with open(fn, "w") as f:
-                    f.write(f"before = 7\nx = {line}\n[sec]\nafter = hello\n")
+                    f.write(f"before = 7\nx = {line}\n" + ("unpacked_parameters = x,\n" if unpack else "") + "[sec]\nafter = hello\n")
                 args = ", ".join(f"{k}={v}" for k, v in kw.items())
                 spec = [f"x = {chk}({args})" if args else f"x = {chk}", "before = integer", "[sec]", "after = string"]
                 what = f"load_from_config_file with 'x = {line}' and spec {spec[0]!r}"
@@ -292,6 +294,14 @@ def _run_parse(idx, case):
                     return d
                 if params["before"] != 7 or params["after"] != "hello":
                     return f"{what}: the other parameters of the file were read as {params.parameters!r}"
+                if unpack:
+                    got = [q["x"] for q in params.get_unpacked_params_list()]
+                    exp = [x * sc for x in case["vals"]]
+                    if params.unpacked_parameters != ["x"] or got != exp or params.get_num_unpacked_variations() != len(exp):
+                        return (f"{what} + 'unpacked_parameters = x,': unpacked {params.unpacked_parameters}, variations "
+                                f"{got}, expected one per value {exp}")
+                elif params.unpacked_parameters:
+                    return f"{what}: parameters {params.unpacked_parameters} are unpacked though the file asks for none"
     return None
 
 
